@@ -240,6 +240,12 @@ def load_known():
         return json.load(f)["findings"]
 
 
+def known_examples(pid=None):
+    """Example inputs of all recorded findings (fixed ones are regression
+    anchors: they stay in the explored set explicitly)."""
+    return [k["example"] for k in load_known() if k.get("example") and (pid is None or k["property"] == pid)]
+
+
 class Run:
     """Collects what one check run explored and decided."""
 
